@@ -415,7 +415,9 @@ class Project:
             try:
                 identifier = self._identifier_of_license(path)
             except SpdxIdentifierNotFoundError:
-                if path.name in self.license_map:
+                if path.name in self.license_map or (
+                    not path.suffix and _LICENSEREF_PATTERN.match(path.name)
+                ):
                     _LOGGER.info(
                         _("{path} does not have a file extension").format(
                             path=path
